@@ -522,6 +522,22 @@ func judgeTreeInto(slot int, tree *refnbt.Node, origin string, dst *nbt.Stringif
 	if text != viaRaw {
 		return treeVerdict{class: dirBin + "/texts-disagree/%s", text: text, detail: fmt.Sprintf("Unmarshal(*StringifiedMessage) gives %q, RawMessage.String() gives %q for %s", clipS(text, 120), clipS(viaRaw, 120), treeStr(tree))}
 	}
+	// the same document through a streaming Decoder whose source answers short reads
+	for _, rk := range binReaderKinds {
+		var via string
+		var verr error
+		wd.Begin(slot, desc)
+		kind, frame, panicked := guardChecked(func() { via, verr = textVia(rk, doc) })
+		wd.End(slot)
+		switch {
+		case panicked:
+			return treeVerdict{class: dirBin + "/panic/" + frame + "/" + kind + "/reader=" + rk, detail: fmt.Sprintf("writing %s as SNBT from a %s source panicked: %s in %s", treeStr(tree), rk, kind, frame)}
+		case verr != nil:
+			return treeVerdict{class: dirBin + "/to-text-error/reader=" + rk + "/%s", detail: fmt.Sprintf("Decode(*StringifiedMessage) from a %s source failed on the well-formed document %s: %v", rk, treeStr(tree), verr)}
+		case via != text:
+			return treeVerdict{class: dirBin + "/text-depends-on-reader/reader=" + rk + "/%s", text: text, detail: fmt.Sprintf("%s is written as %q from a bytes.Reader and as %q from a %s source", treeStr(tree), clipS(text, 120), clipS(via, 120), rk)}
+		}
+	}
 	return judgeOwnText(slot, tree, text, desc)
 }
 
